@@ -214,16 +214,28 @@ def r4(tree, rep):
     def is_output_file(e):
         return _args_attr(resolve_local(fn, e) if isinstance(e, ast.Name) else e, "output_file")
     with_of = truthy_atom(is_output_file)
-    sets = g.nodes(lambda s: isinstance(s, ast.Assign) and any(isinstance(t, ast.Name) and t.id == "overwrite_allowed" for t in s.targets))
-    sets_maybe_true = [n for n in sets if const(g.stmt[n].value) is not False]
+    # the permission flag, whatever it is called and however "no" is spelled (False / None): the one local that starts as a
+    # falsy constant, is assigned again, and is tested
+    from ..cfg import object_atom
+    falsy = lambda v: isinstance(v, ast.Constant) and v.value in (False, None) and not isinstance(v.value, (int, float)) or \
+        (isinstance(v, ast.Constant) and v.value is False)
+    cand = []
+    for nm in sorted({t.id for a in ast.walk(fn) if isinstance(a, ast.Assign) for t in a.targets if isinstance(t, ast.Name)}):
+        asg = [a for a in ast.walk(fn) if isinstance(a, ast.Assign) and any(isinstance(t, ast.Name) and t.id == nm for t in a.targets)]
+        tested = bool(g.cond_edges(object_atom(lambda e, nm=nm: isinstance(e, ast.Name) and e.id == nm), True))
+        if len(asg) >= 2 and any(falsy(a.value) for a in asg) and any(not falsy(a.value) for a in asg) and tested:
+            cand.append(nm)
+    flag = cand[0] if len(cand) == 1 else "overwrite_allowed"
+    sets = g.nodes(lambda s: isinstance(s, ast.Assign) and any(isinstance(t, ast.Name) and t.id == flag for t in s.targets))
+    sets_maybe_true = [n for n in sets if not falsy(g.stmt[n].value)]
     ok = bool(sets_maybe_true) and len(sets) > len(sets_maybe_true) and not g.only_when(sets_maybe_true, with_of, True) \
         and bool(g.cond_edges(with_of, True))
     rep.check("C05.R4", "overwrite_allowed becomes True only under --output-file", ok, site(fn, RX), key="C05.R4:overwrite-only-with-output-file",
               what="an existing destination can be overwritten without --output-file")
     exists = truthy_atom(lambda e: isinstance(e, ast.Call) and dotted(e.func) == "os.path.exists" and len(e.args) == 1
                          and isinstance(e.args[0], ast.Name) and e.args[0].id == "abs_destname")
-    allowed = truthy_atom(lambda e: isinstance(e, ast.Name) and e.id == "overwrite_allowed")
-    assigns = g.nodes(lambda s: isinstance(s, ast.Assign) and any(isinstance(t, ast.Name) and t.id in ("abs_destname", "overwrite_allowed")
+    allowed = object_atom(lambda e: isinstance(e, ast.Name) and e.id == flag)
+    assigns = g.nodes(lambda s: isinstance(s, ast.Assign) and any(isinstance(t, ast.Name) and t.id in ("abs_destname", flag)
                                                                for t in s.targets))
     # "does not exist" / "overwriting allowed" as established on the FINAL path: no assignment of the path or the flag afterwards
     final_free = [(x, y, l) for (x, y, l) in g.cond_edges(exists, False) if not (g.reach([y]) & set(assigns))]
